@@ -215,6 +215,15 @@ def selDM (ds : List Nat) (r c : Nat) (idx : List Nat) : Except String Nat :=
   let n := if ds.drop (ds.length - 2) = [r, c] then 2 else 1
   selDMFull r c (idx.drop (idx.length - n))
 
+/-- an attribute that is a non-scalar `ca.MX` of shape `(r, c)` (an expression of array
+    parameters): `value[ind]` with the whole index tuple; position in the column-major data.
+    (`np.prod(value.shape) == 1` is the scalar case and is not indexed.) -/
+def selMX (r c : Nat) (idx : List Nat) : Except String Nat :=
+  match idx with
+  | [i] => if i < r * c then .ok i else .error "RuntimeError"
+  | [i, j] => if i < r ∧ j < c then .ok (i + j * r) else .error "RuntimeError"
+  | _ => .error "NotImplementedError"
+
 /-! ## Outputs and delay states -/
 
 /-- `i = outputs.index(name); outputs.pop(i); for s in reversed(new): outputs.insert(i, s)`
